@@ -1947,7 +1947,25 @@ impl<'a, R: FileManager> FrontendCtx<'a, R> {
     ) -> Res<RuntypeName> {
         match type_name {
             TsEntityName::Ident(ident) => {
-                if let Some(builtin) = self.maybe_generate_ts_builtin(&ident.sym)? {
+                // a type the module declares or imports under the name of a built-in (type Date =
+                // { y: number }, import { D as Date }) shadows the built-in, as in TypeScript
+                let name = ident.sym.to_string();
+                let shadowed = match self.get_or_fetch_file(&file, anchor) {
+                    Ok(module) => match visibility {
+                        Visibility::Local => {
+                            module.locals.type_aliases.contains_key(&name)
+                                || module.locals.interfaces.contains_key(&name)
+                                || module.locals.enums.contains_key(&name)
+                                || module.imports.contains_key(&name)
+                        }
+                        Visibility::Export => module
+                            .symbol_exports
+                            .get_type(&name, self.files)
+                            .is_some(),
+                    },
+                    Err(_) => false,
+                };
+                if !shadowed && let Some(builtin) = self.maybe_generate_ts_builtin(&ident.sym)? {
                     Ok(RuntypeName::BuiltIn(builtin))
                 } else {
                     let addr: ModuleItemAddress =
